@@ -24,7 +24,7 @@ from harness import fieldsrig as fr
 
 THEOREM_MODULES = ['ExaModel.Props.C18']
 DRIVERS = ['drv_fields']
-TABLES = ['fields']
+TABLES = ['fields', 'pyannounce']
 PROP = 'C18'
 ASSUMPTIONS = [
     'the text parsers of /repo are not modelled function by function: parser totality and acceptance are enumerated on the boundary grid (every field x every boundary value x every entry point x every session shape), on the keyword x value stream and on the structural junk list, and sampled on the seeded token soup; they are not proved',
